@@ -6296,13 +6296,17 @@ impl RelationalEngine {
     ) -> Option<(SelectionVector, usize)> {
         match condition {
             Condition::True => {
-                // Get row count from slab
-                let row_count = self.slab().row_count(table).ok()?;
-                Some((SelectionVector::all(row_count), row_count))
+                // One bit per row slot (like the column filters below), deleted slots
+                // masked out. Sizing this by the live row count would truncate the
+                // bitmaps it is combined with after a delete.
+                let (slot_count, alive_words) = self.slab().alive_bitmap(table).ok()?;
+                let mut selection = SelectionVector::all(slot_count);
+                Self::apply_alive_mask(selection.bitmap_mut(), &alive_words);
+                Some((selection, slot_count))
             },
 
             Condition::Eq(col, Value::Int(val)) => {
-                let (values, alive_words, _null_words) =
+                let (values, alive_words, null_words) =
                     self.slab().get_int_column(table, col).ok()?;
                 let row_count = values.len();
                 if row_count == 0 {
@@ -6311,12 +6315,13 @@ impl RelationalEngine {
                 let mut bitmap = vec![0u64; simd::bitmap_words(row_count)];
                 simd::filter_eq_i64(&values, *val, &mut bitmap);
                 // AND with alive bitmap to exclude deleted rows
+                Self::apply_null_mask(&mut bitmap, &null_words, false);
                 Self::apply_alive_mask(&mut bitmap, &alive_words);
                 Some((SelectionVector::from_bitmap(bitmap, row_count), row_count))
             },
 
             Condition::Ne(col, Value::Int(val)) => {
-                let (values, alive_words, _null_words) =
+                let (values, alive_words, null_words) =
                     self.slab().get_int_column(table, col).ok()?;
                 let row_count = values.len();
                 if row_count == 0 {
@@ -6324,12 +6329,13 @@ impl RelationalEngine {
                 }
                 let mut bitmap = vec![0u64; simd::bitmap_words(row_count)];
                 simd::filter_ne_i64(&values, *val, &mut bitmap);
+                Self::apply_null_mask(&mut bitmap, &null_words, true);
                 Self::apply_alive_mask(&mut bitmap, &alive_words);
                 Some((SelectionVector::from_bitmap(bitmap, row_count), row_count))
             },
 
             Condition::Lt(col, Value::Int(val)) => {
-                let (values, alive_words, _null_words) =
+                let (values, alive_words, null_words) =
                     self.slab().get_int_column(table, col).ok()?;
                 let row_count = values.len();
                 if row_count == 0 {
@@ -6337,12 +6343,13 @@ impl RelationalEngine {
                 }
                 let mut bitmap = vec![0u64; simd::bitmap_words(row_count)];
                 simd::filter_lt_i64(&values, *val, &mut bitmap);
+                Self::apply_null_mask(&mut bitmap, &null_words, false);
                 Self::apply_alive_mask(&mut bitmap, &alive_words);
                 Some((SelectionVector::from_bitmap(bitmap, row_count), row_count))
             },
 
             Condition::Le(col, Value::Int(val)) => {
-                let (values, alive_words, _null_words) =
+                let (values, alive_words, null_words) =
                     self.slab().get_int_column(table, col).ok()?;
                 let row_count = values.len();
                 if row_count == 0 {
@@ -6350,12 +6357,13 @@ impl RelationalEngine {
                 }
                 let mut bitmap = vec![0u64; simd::bitmap_words(row_count)];
                 simd::filter_le_i64(&values, *val, &mut bitmap);
+                Self::apply_null_mask(&mut bitmap, &null_words, false);
                 Self::apply_alive_mask(&mut bitmap, &alive_words);
                 Some((SelectionVector::from_bitmap(bitmap, row_count), row_count))
             },
 
             Condition::Gt(col, Value::Int(val)) => {
-                let (values, alive_words, _null_words) =
+                let (values, alive_words, null_words) =
                     self.slab().get_int_column(table, col).ok()?;
                 let row_count = values.len();
                 if row_count == 0 {
@@ -6363,12 +6371,13 @@ impl RelationalEngine {
                 }
                 let mut bitmap = vec![0u64; simd::bitmap_words(row_count)];
                 simd::filter_gt_i64(&values, *val, &mut bitmap);
+                Self::apply_null_mask(&mut bitmap, &null_words, false);
                 Self::apply_alive_mask(&mut bitmap, &alive_words);
                 Some((SelectionVector::from_bitmap(bitmap, row_count), row_count))
             },
 
             Condition::Ge(col, Value::Int(val)) => {
-                let (values, alive_words, _null_words) =
+                let (values, alive_words, null_words) =
                     self.slab().get_int_column(table, col).ok()?;
                 let row_count = values.len();
                 if row_count == 0 {
@@ -6376,12 +6385,13 @@ impl RelationalEngine {
                 }
                 let mut bitmap = vec![0u64; simd::bitmap_words(row_count)];
                 simd::filter_ge_i64(&values, *val, &mut bitmap);
+                Self::apply_null_mask(&mut bitmap, &null_words, false);
                 Self::apply_alive_mask(&mut bitmap, &alive_words);
                 Some((SelectionVector::from_bitmap(bitmap, row_count), row_count))
             },
 
             Condition::Lt(col, Value::Float(val)) => {
-                let (values, alive_words, _null_words) =
+                let (values, alive_words, null_words) =
                     self.slab().get_float_column(table, col).ok()?;
                 let row_count = values.len();
                 if row_count == 0 {
@@ -6389,12 +6399,13 @@ impl RelationalEngine {
                 }
                 let mut bitmap = vec![0u64; simd::bitmap_words(row_count)];
                 simd::filter_lt_f64(&values, *val, &mut bitmap);
+                Self::apply_null_mask(&mut bitmap, &null_words, false);
                 Self::apply_alive_mask(&mut bitmap, &alive_words);
                 Some((SelectionVector::from_bitmap(bitmap, row_count), row_count))
             },
 
             Condition::Gt(col, Value::Float(val)) => {
-                let (values, alive_words, _null_words) =
+                let (values, alive_words, null_words) =
                     self.slab().get_float_column(table, col).ok()?;
                 let row_count = values.len();
                 if row_count == 0 {
@@ -6402,12 +6413,13 @@ impl RelationalEngine {
                 }
                 let mut bitmap = vec![0u64; simd::bitmap_words(row_count)];
                 simd::filter_gt_f64(&values, *val, &mut bitmap);
+                Self::apply_null_mask(&mut bitmap, &null_words, false);
                 Self::apply_alive_mask(&mut bitmap, &alive_words);
                 Some((SelectionVector::from_bitmap(bitmap, row_count), row_count))
             },
 
             Condition::Eq(col, Value::Float(val)) => {
-                let (values, alive_words, _null_words) =
+                let (values, alive_words, null_words) =
                     self.slab().get_float_column(table, col).ok()?;
                 let row_count = values.len();
                 if row_count == 0 {
@@ -6415,6 +6427,7 @@ impl RelationalEngine {
                 }
                 let mut bitmap = vec![0u64; simd::bitmap_words(row_count)];
                 simd::filter_eq_f64(&values, *val, &mut bitmap);
+                Self::apply_null_mask(&mut bitmap, &null_words, false);
                 Self::apply_alive_mask(&mut bitmap, &alive_words);
                 Some((SelectionVector::from_bitmap(bitmap, row_count), row_count))
             },
@@ -6433,6 +6446,19 @@ impl RelationalEngine {
 
             // Unsupported conditions - fall back to legacy path
             _ => None,
+        }
+    }
+
+    /// Apply the column's null bitmap to a comparison result: a NULL cell satisfies no
+    /// comparison except `!=` against a non-null literal (NULL differs from every value).
+    fn apply_null_mask(bitmap: &mut [u64], null_words: &[u64], is_ne: bool) {
+        for (i, word) in bitmap.iter_mut().enumerate() {
+            let nulls = null_words.get(i).copied().unwrap_or(0);
+            if is_ne {
+                *word |= nulls;
+            } else {
+                *word &= !nulls;
+            }
         }
     }
 
